@@ -6,7 +6,7 @@ from ..runner import Case, Property
 
 class C04(Property):
     id = "C04"
-    lean_module = "RosuModel.Props.C04All"   # imports Props/C04Slider.lean, Props/C04Timing.lean (which import Props/C04.lean), Props/C04File.lean and Props/C04Toy.lean; all in namespace Rosu.C04
+    lean_module = "RosuModel.Props.C04All"   # imports Props/C04Slider.lean, Props/C04Timing.lean (which import Props/C04.lean), Props/C04File.lean, Props/C04Toy.lean and Props/C04Decoded.lean; all in namespace Rosu.C04
     namespace = "Rosu.C04"
     design_ref = "5.4"
     required_theorems = ["headers_recognised", "encode_shape", "block_starts_with_header", "encoded_text_lines", "version_line_parses",
@@ -18,15 +18,43 @@ class C04(Property):
                          "timing_block_lines", "decoded_control_points_in_limits", "timing_block_shape", "timing_lines_accepted", "record_and_timing_blocks_accepted",
                          "sample_timing_rep", "sample_records_rep", "sample_timing_text", "sample_encodes",
                          "record_calls_accepted", "encoded_file_accepted", "encoded_file_sections_accepted",
-                         "toy_collect", "toyMap_rep", "toyMap_timing_text", "toyMap_objects_text", "toyMap_lines"]
+                         "toy_collect", "toyMap_rep", "toyMap_timing_text", "toyMap_objects_text", "toyMap_lines",
+                         "reader_lines_lf_free", "parser_calls_keep_decoded_inv", "decoded_inv", "decoded_metadata_colours_representable", "decoded_map_inv",
+                         "decoded_records_representable", "decoded_records_representable_of_limitRep", "record_lines_accepted_decoded",
+                         "record_lines_accepted_decoded_metadata_colours", "record_blocks_accepted_decoded", "record_blocks_accepted_and_recovered_decoded",
+                         "f16_decoded_witness", "constFacts_of_check", "decoded_hypotheses_satisfiable", "decodedSample_decodes", "decodedSample_finishes", "decodedSample_floatsRep",
+                         "decodedSample_noDoubleSlash", "decodedSample_encodes"]
     partial_theorems = {
         "record_lines_accepted_editor / _difficulty / _general / _events, record_blocks_accepted_and_recovered":
             "law-dependent: proved for every number codec satisfying CodecLaws (+ IntPrintLaw for AudioLeadIn), shown satisfiable by Lemmas/ToyCodec.lean; CodecLaws is now also a theorem "
             "for the model's IEEE codec (C02: parseBits_printBits_f64/_f32, printBits_clean, codecLaws_float(32) under the bit-cast hypothesis FloatBitsLaw about Lean's opaque Float); IntPrintLaw "
             "likewise (C02: printBits_intBits_f64, intPrintLaw_float under FloatOfIntLaw). Not proved: that Rust's Display/FromStr equal the model codec (tested by lib/codecgen.py). record_lines_accepted_metadata / _colours, version_line_parses, encode_shape, lines_dispatched need no law",
-        "record_lines_accepted_*": "stated for section records that are representable (Rt*.Rep*: self-trimmed single-line texts, file names without `//`, backslash (and, for the background, "
-            "comma / outer quotes), integers within ±(2^31−1), floats representable by the codec within the parse limit and inside the field's clamp, colour components ≤ 255, custom colour "
-            "names without `:` / `//` / leading `Combo`, pairwise distinct). That every *decoded* map satisfies these (the `Decoded` invariant of DESIGN 5.4) is not proved here",
+        "record_lines_accepted_<section> / record_blocks_accepted_and_recovered": "stated for section records that are representable (Rt*.Rep*: self-trimmed single-line texts, file names "
+            "without `//`, backslash (and, for the background, comma / outer quotes), integers within ±(2^31−1), floats representable by the codec within the parse limit and inside the field's "
+            "clamp, colour components ≤ 255, custom colour names without `:` / `//` / leading `Combo`, pairwise distinct). For DECODED maps these assumptions are discharged by the "
+            "`Decoded` invariant below (record_lines_accepted_decoded, record_blocks_accepted_decoded)",
+        "decoded_inv / decoded_map_inv / parser_calls_keep_decoded_inv / reader_lines_lf_free":
+            "the `Decoded` invariant of DESIGN 5.4 for the six record sections, proved for EVERY byte string (any of the three encodings, hostile / non-chronological content, rejected "
+            "lines): reader_lines_lf_free — every line the reader yields has no line feed and is end-trimmed (UTF-8 lossy decoding and both UTF-16 byte orders, Lemmas/DecodedInvReader.lean); "
+            "parser_calls_keep_decoded_inv — the initial state has DecInv and one call of any section parser on any LF-free line, accepted or rejected, keeps it; decoded_inv / decoded_map_inv "
+            "— lifted through the framing driver (C05's fold) and the finaliser. DecInv says: metadata texts are their own trim and single-line; format version, ids, preview time, countdown "
+            "offset, beat divisor, grid size within ±(2^31−1); bookmarks are i32s; audio_lead_in is an integer value; every float is within the parse limit and not NaN; slider multiplier / "
+            "tick rate lie inside their clamps as f64::clamp tests them; break ends satisfy max(start,end)=end; file names have no line feed, no backslash, the audio name is its own trim, "
+            "the background has no comma and no outer quote; colour components ≤ 255 with alpha 255; custom colour names are their own trim, without `:`, line feed, `//` (parse_colors strips "
+            "comments before splitting — contrary to the expectation that `x//y` could be a decoded name) or leading `Combo`, pairwise distinct. NO codec law is used (so this also holds "
+            "of the IEEE instance); the only hypothesis is ConstFacts — closed facts about the decoder's own constants (1, 1.4, 5, 0.7, 0.4, 3.6, 0.5, 8 are within the parse limit, `<` is "
+            "irreflexive on the clamp bounds and lo < hi is not reversed, 0 = i32-as-f64 0): true of IEEE floats by evaluation but not provable in the kernel (Lean's Float is opaque): the boolean form constFactsB is "
+            "evaluated to true on the driver's Float/Float32 instances by `#guard` when Props/C04Decoded.lean is built (a test, not a proof; constFacts_of_check links it to ConstFacts); "
+            "instance on the toy scalar by `decide`. decoded_metadata_colours_representable needs no hypothesis at all",
+        "decoded_records_representable / record_lines_accepted_decoded / record_blocks_accepted_decoded / record_blocks_accepted_and_recovered_decoded":
+            "every clause of every Rep* predicate is either derived from DecInv or isolated as a residual hypothesis: (a) FloatsRep — the codec represents the map's (finite, in-limit) float "
+            "values: a codec law, implied by the single law LimitRep (`everything within the parse limit is representable`, a theorem for the toy codec); (b) NoDoubleSlash — neither file "
+            "name contains `//` (finding F16: `AudioFilename: a\\\\b`, `a/\\b`, background `a\\\\\\\\b` decode to `a//b`; f16_decoded_witness; replayed on the real code: `rt` FAILs with "
+            "explained=file-name-contains-double-slash, `lines` is OK). ACCEPTANCE does not need (b): record_lines_accepted_decoded (all six sections, every line a record line accepted in any "
+            "state) and record_blocks_accepted_decoded (file level: the re-read lines are exactly the blocks' lines and each block reaches exactly its parser) assume only the codec laws, "
+            "ConstFacts and FloatsRep — a name with `//` is cut when read back but its line is still an accepted AudioFilename / background record (Lemmas/DecodedInvAccept.lean). "
+            "record_blocks_accepted_and_recovered_decoded additionally asserts the record fields come back and therefore keeps (b). Non-vacuity: a hostile 19-line file is decoded, finalised, "
+            "encoded and read back in the kernel on the toy codec (decodedSample_*). The list blocks still enter by their shape (ListBlockShape), as before",
         "hitobject_lines_accepted_partial": "law-dependent; covers circles, spinners and hold notes only (line is LF-free, a record line, accepted in any state, same kind of object comes back); "
             "kept, now contained in hitobject_lines_accepted",
         "slider_line_accepted / hitobject_lines_accepted": "law-dependent (CodecLaws for both float types + SliderRt.CoordLaws for path coordinates: f32 Display read back by f64 FromStr; "
@@ -83,6 +111,8 @@ class C04(Property):
                   "the encoded text is the version line plus the eight blocks, and decoding it (bytes, reader, framing) hands every non-blank non-header line of every block to its own section's "
                   "parser, in order, and every call returns Ok; as many hit objects / breaks / colours are pushed as written (non-vacuity: C04.toyMap, encoding evaluated). "
                   "That a decoded map satisfies RepMap is not a theorem (false in general: F17, F18, F20, non-finite computed sample-point times). "
+                  "For DECODED maps the representability assumptions of the six record sections are discharged: decoded_inv (every byte string decodes to a state satisfying the `Decoded` invariant, no codec law), "
+                  "record_lines_accepted_decoded / record_blocks_accepted_decoded (acceptance for every decoded map under the codec laws and representability of its float values only — not even the F16 exclusion). "
                   "The encoder model is compared character for character with Beatmap::encode_to_string on every generated and bundled map; the property itself is evaluated on the "
                   "real code for every line of every encoding (oracle `lines`).")
     technique = "Lean 4 proof (output shape, reader inversion, per-line acceptance and dispatch for all eight blocks, composed into one file-level statement for representable maps; law-dependent where floats are printed) + char-for-char encoder correspondence + per-line acceptance oracle on the implementation"
